@@ -3,6 +3,7 @@ NEXT Stutter
 CONSTANTS
   SmallBound = 16
   SmallShift = 4
+  SmallShrCount = 12
   Range <- RangeTiny
   ClassSet <- ClassesCore
   CoreSet <- CoreTiny
